@@ -85,6 +85,8 @@ def run(ctx):
         cfgs.append(('sig', [rng.choice((1, -1, 0)) for _ in range(d)], None, None))
         cfgs.append(('sig', [rng.choice((1, -1)) for _ in range(d)], None, None))
     for tag, sig, start, basis in cfgs:
+        if ctx.over_budget():
+            continue
         alg = cache.get(sig, start, basis)
         tok = tok_of(alg, basis)
         desc = {'sig': sig, 'basis': basis}
